@@ -114,36 +114,36 @@ type World struct {
 	stats map[string]int
 	rng   *rand.Rand
 
-	plat                  string
-	bench, magic, cached  bool
-	lp                    uint64
-	page                  uint64
-	d                     *driver.Driver
-	beng                  *ab.Engine
-	sim                   *simulation.Simulation
-	eng                   sim.Engine
-	port                  sim.Port
-	pt                    vm.PageTable
-	storage               *mem.Storage
-	acc                   emu.StorageAccessor
-	cyc                   int
-	ctxs                  []*driver.Context
-	curGPU                []int
-	bufs                  map[int]*bufInfo
-	byVA                  map[uint64]*bufInfo
-	nextInternal          int
-	queues                []*qInfo
-	named                 map[int]*qInfo
-	cmdID                 map[driver.Command]int
-	started               map[driver.Command]bool
-	users                 map[uintptr]*userOp
-	kerns                 map[*driver.CommandQueue][]kernInfo
-	gpus                  []*fakeGPU
-	snap                  map[uint64][]byte
-	everMapped            map[uint64]bool
-	pid                   uint64
-	dead                  bool
-	events                int
+	plat                 string
+	bench, magic, cached bool
+	lp                   uint64
+	page                 uint64
+	d                    *driver.Driver
+	beng                 *ab.Engine
+	sim                  *simulation.Simulation
+	eng                  sim.Engine
+	port                 sim.Port
+	pt                   vm.PageTable
+	storage              *mem.Storage
+	acc                  emu.StorageAccessor
+	cyc                  int
+	ctxs                 []*driver.Context
+	curGPU               []int
+	bufs                 map[int]*bufInfo
+	byVA                 map[uint64]*bufInfo
+	nextInternal         int
+	queues               []*qInfo
+	named                map[int]*qInfo
+	cmdID                map[driver.Command]int
+	started              map[driver.Command]bool
+	users                map[uintptr]*userOp
+	kerns                map[*driver.CommandQueue][]kernInfo
+	gpus                 []*fakeGPU
+	snap                 map[uint64][]byte
+	everMapped           map[uint64]bool
+	pid                  uint64
+	dead                 bool
+	events               int
 }
 
 func (w *World) emit(e string, f ab.Rec) {
